@@ -54,6 +54,41 @@ Theorem C10_subfield_own_comparison : forall (Arr Opnd Res : Type) (np_binop : v
 Proof. exact own_comparison. Qed.
 Print Assumptions C10_subfield_own_comparison.
 
+(* the view as the RIGHT operand of a python number / sequence (python's reflection).  Arithmetic: whatever reflected
+   methods the three classes define in the regenerated tables (today none: TypeError, no result), an expression
+   `x <op> view` that returns a result returns numpy's `x <op> np.array(view)` - same operator, operands in the written
+   order.  (A reflected method of another shape, e.g. np.array(self) // other, is not representable in the tables: the
+   translator fails closed.) *)
+Theorem C10_reflected_arithmetic : forall (Arr Opnd Res : Type) (np_binop : vbinop -> Arr -> Opnd -> Res)
+    (np_rbinop : vbinop -> Opnd -> Arr -> Res) c op x mat own r,
+  is_comparison op = false ->
+  view_on_right Arr Opnd Res np_binop np_rbinop c op x mat own = Some r -> r = np_rbinop op x mat.
+Proof. exact reflected_arithmetic. Qed.
+Print Assumptions C10_reflected_arithmetic.
+
+(* comparisons: `x < view` is python's `view > x`, answered by the route of the mirrored operator ... *)
+Theorem C10_reflected_comparison : forall (Arr Opnd Res : Type) (np_binop : vbinop -> Arr -> Opnd -> Res)
+    (np_rbinop : vbinop -> Opnd -> Arr -> Res) c op x mat own,
+  is_comparison op = true ->
+  view_on_right Arr Opnd Res np_binop np_rbinop c op x mat own = view_binop Arr Opnd Res np_binop c (mirror op) mat x own.
+Proof. exact reflected_comparison. Qed.
+Print Assumptions C10_reflected_comparison.
+
+(* ... which for a sub-field and an integer constant of any representation on the left is numpy's `c <op> np.array(view)` *)
+Theorem C10_subfield_reflected_array : forall fmt name composed m bs op x c,
+  In (fmt, name, composed, m) all_sub_fields -> Forall (fun b => 0 <= b < 256) bs -> is_comparison op = true ->
+  operand_int x = Some c ->
+  sfv_rbinop_arr m bs op x = np_rcmp_const op c (sf_materialise m bs).
+Proof. exact sfv_rbinop_arr_correct. Qed.
+Print Assumptions C10_subfield_reflected_array.
+
+(* augmented assignment `v <op>= x` on a name bound to a view: no class defines an in-place operator (nor any operator
+   method outside the eleven of C10_delegation and the reflected five), so python evaluates `v = v <op> x` *)
+Theorem C10_inplace : forall (Arr Opnd Res : Type) (np_binop : vbinop -> Arr -> Opnd -> Res) c op mat x own,
+  view_inplace Arr Opnd Res np_binop c op mat x own = view_binop Arr Opnd Res np_binop c op mat x own.
+Proof. exact inplace_is_binop. Qed.
+Print Assumptions C10_inplace.
+
 (* max/min: np.array(self).max/min with the same reduction and the caller's arguments, except a one-element scaled view
    called without any argument (C10_scaled_minmax) *)
 Theorem C10_reduce_routes : forall c multi args r,
@@ -193,6 +228,8 @@ Example C10_nonvacuous :
   /\ sfv_binop_arr 240 [0xF0; 0x10; 0x95] OpLt (NpInt 8 false 33) = [Some true; Some true; Some true]
   /\ sfv_binop_arr 240 [0xF0; 0x10; 0x95] OpGe (PyInt (-(2 ^ 70))) = [Some true; Some true; Some true]
   /\ sfv_binop_arr 240 [0xF0; 0x10; 0x95] OpEq (PyInt 9) = [Some false; Some false; Some true]
+  (* 4 < return_number on the values 5, 0, 7: the constant on the left *)
+  /\ sfv_rbinop_arr 7 [0xFD; 0x00; 0x3F] OpLt (PyInt 4) = [Some true; Some false; Some true]
   (* a 3-element scaled dimension with scales 1, 5, 20 and offsets 10, -2, 100 *)
   /\ option_map (materialise positive Z Z ap_Z)
        (view_index positive Z Z ap_Z (IxPair (ASel [2; 0]%nat) (AInt 1)) (V2 [[1; 2; 3]; [4; 5; 6]; [7; 8; 9]] [1; 5; 20]%positive [10; -2; 100]))
